@@ -156,6 +156,9 @@ pub struct Exchange {
     pub denied: Vec<String>,
     /// TLS server name the client asked for
     pub sni: Option<String>,
+    /// next-protocol ids the client offered and the one the server answered with
+    pub offered: Vec<u16>,
+    pub negotiated: Option<u16>,
     /// what the server decided to do (recorded before anything is written)
     pub reply: Reply,
     /// the response / error record was written and the TLS stream shut down without an IO error
@@ -203,6 +206,12 @@ const T: Duration = Duration::from_secs(20);
 
 /// bind the listener and start serving; must be called inside the runtime of the case
 pub async fn start(script: Vec<KeAnswer>, honor_deny: bool, t0: Instant, probe: Option<Probe>) -> std::io::Result<KeServer> {
+    start_with(script, honor_deny, t0, probe, false).await
+}
+
+/// `prefer_v4`: of the protocols the client offers the server picks NTPv4 when it is among them (otherwise, and
+/// by default, the first one offered)
+pub async fn start_with(script: Vec<KeAnswer>, honor_deny: bool, t0: Instant, probe: Option<Probe>, prefer_v4: bool) -> std::io::Result<KeServer> {
     let listener = TcpListener::bind((LISTEN_IP, 0)).await?;
     let port = listener.local_addr()?.port();
     let state = Arc::new(Mutex::new(KeState::default()));
@@ -221,6 +230,8 @@ pub async fn start(script: Vec<KeAnswer>, honor_deny: bool, t0: Instant, probe: 
                     probe: probe.as_ref().map(|p| p()).unwrap_or(0),
                     denied: vec![],
                     sni: None,
+                    offered: vec![],
+                    negotiated: None,
                     reply: Reply::Pending,
                     write_ok: false,
                 });
@@ -235,7 +246,12 @@ pub async fn start(script: Vec<KeAnswer>, honor_deny: bool, t0: Instant, probe: 
             let note_sni = |name: Option<String>| {
                 st.lock().unwrap_or_else(|e| e.into_inner()).log[k].sni = name;
             };
-            let write_ok = handle(tcp, &acceptor, &answer, honor_deny, k, &record, &note_sni).await;
+            let note_proto = |offered: Vec<u16>, negotiated: u16| {
+                let mut s = st.lock().unwrap_or_else(|e| e.into_inner());
+                s.log[k].offered = offered;
+                s.log[k].negotiated = Some(negotiated);
+            };
+            let write_ok = handle(tcp, &acceptor, &answer, honor_deny, k, &record, &note_sni, prefer_v4, &note_proto).await;
             st.lock().unwrap_or_else(|e| e.into_inner()).log[k].write_ok = write_ok;
         }
     });
@@ -251,6 +267,8 @@ async fn handle(
     k: usize,
     record: &(dyn Fn(Vec<String>, Reply) + Send + Sync),
     note_sni: &(dyn Fn(Option<String>) + Send + Sync),
+    prefer_v4: bool,
+    note_proto: &(dyn Fn(Vec<u16>, u16) + Send + Sync),
 ) -> bool {
     if matches!(answer, KeAnswer::DropTcp) {
         drop(tcp);
@@ -279,7 +297,9 @@ async fn handle(
         record(denied, Reply::BadRequest);
         return false;
     }
-    let proto = req.next_protocols[0][0];
+    let offered: Vec<u16> = req.next_protocols[0].clone();
+    let proto = if prefer_v4 && offered.contains(&0) { 0 } else { offered[0] };
+    note_proto(offered, proto);
 
     let bytes = match answer {
         KeAnswer::DropTcp => unreachable!(),
